@@ -15,7 +15,7 @@ import json
 from vp.core import Ctx, Fail, HarnessError, SubCheck, Tally
 from vp.purity import (
     CATALOGUE, Bits, BitsVar, Cat, Choice, Const, Flag, Hex, HexVar, Int, ListOf, Map, OneOf, Rec, Seq, Vec, ZygotePair,
-    args_strategy, canonical_calls, entry, fork_run, mode_families,
+    args_strategy, canonical_calls, entry, fork_run, mode_families, reject_candidates,
 )
 
 LEVEL = "exploration"
@@ -38,7 +38,7 @@ okdmr.dmrlib.hytera.pdu.radio_control_protocol okdmr.dmrlib.hytera.pdu.location_
 okdmr.dmrlib.hytera.pdu.text_message_protocol okdmr.dmrlib.hytera.pdu.radio_registration_service
 okdmr.dmrlib.hytera.pdu.radio_ip okdmr.dmrlib.motorola.mbxml okdmr.dmrlib.motorola.lrrp okdmr.dmrlib.motorola.arrp
 okdmr.dmrlib.motorola.text_messaging_service okdmr.dmrlib.motorola.automatic_registration_service
-okdmr.dmrlib.utils.bits_bytes okdmr.dmrlib.utils.parsing
+okdmr.dmrlib.utils.bits_bytes okdmr.dmrlib.utils.parsing okdmr.dmrlib.transmission.transmission_generator
 """.split()
 
 _IMPORTED = False
@@ -766,6 +766,16 @@ def _(a, T):
     return (o, o.as_bits())
 
 
+@entry("txgen.data_header_burst", "pdu", dict(data=Vec(V_DATA_HEADER)), ncanon=4, doc="TransmissionGenerator.generate_data_header_burst(DataHeader object), serialised")
+def _(a, T):
+    from okdmr.dmrlib.etsi.layer2.pdu.data_header import DataHeader
+    from okdmr.dmrlib.transmission.transmission_generator import TransmissionGenerator
+
+    dh = T.obj("data_header", a["data"], lambda: DataHeader.from_bytes(T.bytes(a["data"])))
+    b = TransmissionGenerator.generate_data_header_burst(dh)
+    return (b.as_bits(), repr(b))
+
+
 # ---------------------------------------------------------------------------------------------- bursts, IPSC, kaitai front ends
 
 BURST_TYPES = ["Undefined", "Vocoder", "DataAndControl"]
@@ -807,9 +817,13 @@ def _(a, T):
     from okdmr.dmrlib.etsi.layer2.burst import Burst
     from okdmr.kaitai.homebrew.mmdvm2020 import Mmdvm2020
 
-    try:  # third-party kaitai pre-parse of a (possibly mutated) vector: a rejection there is a plain, deterministic result
+    def build():
         cd = Mmdvm2020.from_bytes(T.bytes(a["data"])).command_data
         cd.dmr_data
+        return cd
+
+    try:  # third-party kaitai pre-parse of a (possibly mutated) vector: a rejection there is a plain, deterministic result
+        cd = T.obj("kaitai_mmdvm", a["data"], build)
     except Exception as e:
         return ("kaitai rejected", type(e).__name__)
     return _burst_obs(Burst.from_mmdvm(cd))
@@ -823,11 +837,45 @@ def _(a, T):
     raw = T.bytes(a["data"])
     if a["kaitai"]:
         try:
-            raw = IpSiteConnectProtocol.from_bytes(raw)
+            raw = T.obj("kaitai_ipsc", a["data"], lambda: IpSiteConnectProtocol.from_bytes(T.bytes(a["data"])))
         except Exception as e:
             return ("kaitai rejected", type(e).__name__)
     b = Burst.from_hytera_ipsc(raw)
     return (b, b.as_bits(), b.hytera_ipsc)
+
+
+@entry("ipsc.from_kaitai", "burst", dict(data=Vec(V_IPSC)), parse=True, ncanon=4, doc="HyteraIPSC.from_kaitai(parsed kaitai object) + as_ipsc_bytes")
+def _(a, T):
+    from okdmr.dmrlib.hytera.hytera_ipsc import HyteraIPSC
+    from okdmr.kaitai.hytera.ip_site_connect_protocol import IpSiteConnectProtocol
+
+    try:
+        k = T.obj("kaitai_ipsc", a["data"], lambda: IpSiteConnectProtocol.from_bytes(T.bytes(a["data"])))
+    except Exception as e:
+        return ("kaitai rejected", type(e).__name__)
+    o = HyteraIPSC.from_kaitai(k)
+    return (o, o.as_ipsc_bytes())
+
+
+@entry("ipsc.wrap_burst", "burst", dict(data=S_BURST_HEX, bt=Choice(BURST_TYPES), seq=Int(0, 255)), doc="HyteraIPSC built around a Burst object, serialised")
+def _(a, T):
+    from okdmr.dmrlib.etsi.layer2.burst import Burst
+    from okdmr.dmrlib.etsi.layer2.elements.burst_types import BurstTypes
+    from okdmr.dmrlib.hytera import hytera_ipsc as h
+
+    b = T.obj("burst", [a["data"], a["bt"]], lambda: Burst.from_bytes(T.bytes(a["data"]), BurstTypes[a["bt"]]))
+    o = h.HyteraIPSC(call_type=h.CallType.GroupCall, frame_type=h.FrameType.Data, packet_type=h.PacketType.TypeA, slot_type=h.SlotType.CSBK,
+                     timeslot=h.Timeslot.Timeslot_1, sequence_number=a["seq"], color_code=1, destination_radio_id=9, source_radio_id=2623266, payload=b)
+    return (o.as_ipsc_bytes(), repr(o))
+
+
+@entry("burst.serialise", "burst", dict(data=S_BURST_HEX, bt=Choice(BURST_TYPES)), doc="as_bits / as_bytes / repr of a Burst object")
+def _(a, T):
+    from okdmr.dmrlib.etsi.layer2.burst import Burst
+    from okdmr.dmrlib.etsi.layer2.elements.burst_types import BurstTypes
+
+    b = T.obj("burst", [a["data"], a["bt"]], lambda: Burst.from_bytes(T.bytes(a["data"]), BurstTypes[a["bt"]]))
+    return (b.as_bits(), b.as_bytes(), repr(b), b.target_radio_id)
 
 
 @entry("ipsc.from_ipsc_bytes", "burst", dict(data=Vec(V_IPSC)), parse=True, ncanon=4)
@@ -1095,6 +1143,39 @@ def _(a, T):
     return (o, len(o), HSTRPPacketType.from_bytes(T.bytes(a["data"])[:1] or b"\x00"), HSTRPPacketType())
 
 
+@entry("hrnp.wrap_hdap", "hytera", dict(data=OneOf(Vec(V_RCP[:4] + V_LP[:1] + V_TMP[:1] + V_RRS[:1]), S_HDAP), pn=Int(0, 65535)), ncanon=4,
+       doc="HRNP DATA packet built around a parsed HDAP object, serialised")
+def _(a, T):
+    from okdmr.dmrlib.hytera.pdu.hdap import HDAP
+    from okdmr.dmrlib.hytera.pdu.hrnp import HRNP, HRNPOpcodes
+
+    hd = T.obj("hdap", a["data"], lambda: HDAP.from_bytes(T.bytes(a["data"])))
+    o = HRNP(data=hd, opcode=HRNPOpcodes.DATA, packet_number=a["pn"])
+    return (o.as_bytes(), len(o), repr(o))
+
+
+@entry("hstrp.wrap_hdap", "hytera", dict(data=OneOf(Vec(V_RCP[:4] + V_LP[:1] + V_TMP[:1] + V_RRS[:1]), S_HDAP), sn=Int(0, 65535)), ncanon=4,
+       doc="HSTRP packet built around a parsed HDAP object and an options object, serialised")
+def _(a, T):
+    from okdmr.dmrlib.hytera.pdu.hdap import HDAP
+    from okdmr.dmrlib.hytera.pdu.hstrp import HSTRP, HSTRPOptions, HSTRPOptionType, HSTRPPacketType
+
+    hd = T.obj("hdap", a["data"], lambda: HDAP.from_bytes(T.bytes(a["data"])))
+    opts = T.obj("hstrp_options", "device", lambda: HSTRPOptions().add_option(HSTRPOptionType.DeviceID, b"\x00\x01\x86\x9f"))
+    o = HSTRP(pkt_type=HSTRPPacketType(have_options=True), sn=a["sn"], options=opts, payload=hd)
+    return (o.as_bytes(), repr(o))
+
+
+@entry("lp.with_gps", "hytera", dict(gps=OneOf(Vec([V_LP[0][30:110], V_LP[1][30:110]], mutate=False), S_GPS), rid=Int(0, 0xFFFFFFFF)),
+       doc="LocationProtocol report built around a parsed GPSData object, serialised")
+def _(a, T):
+    from okdmr.dmrlib.hytera.pdu.location_protocol import GPSData, LocationProtocol, LocationProtocolSpecificService
+
+    g = T.obj("gps", a["gps"], lambda: GPSData.from_bytes(T.bytes(a["gps"])))
+    o = LocationProtocol(opcode=LocationProtocolSpecificService.StandardReport, request_id=a["rid"], radio_ip=b"\x0a\x00\x00\x50", gpsdata=g)
+    return (o.as_bytes(), repr(o))
+
+
 # ---------------------------------------------------------------------------------------------- Motorola (MBXML / LRRP, TMS, ARS)
 
 LRRP_DOCS = ["LRRP_ImmediateLocationRequest_NCDT", "LRRP_ImmediateLocationReport_NCDT", "LRRP_TriggeredLocationRequest_NCDT", "LRRP_TriggeredLocationReport_NCDT",
@@ -1200,6 +1281,14 @@ def _(a, T):
 
     di = MBXMLDocumentIdentifier[a["doc"]]
     return (MBXML.build_constants_table(di), LRRP.get_configuration(di), LRRP.get_known_tokens(True), LRRP.get_known_tokens(False), LRRP.get_known_attributes())
+
+
+@entry("mbxml.serialise_doc", "mbxml", dict(data=OneOf(Vec(V_MBXML, mutate=False), S_MBXML)), ncanon=6, doc="MBXML.as_bytes(doc) / doc.as_xml() of a parsed document object")
+def _(a, T):
+    from okdmr.dmrlib.motorola.mbxml import MBXML
+
+    d = T.obj("mbxml_doc", a["data"], lambda: MBXML.from_bytes(T.bytes(a["data"]))[0])
+    return (MBXML.as_bytes(d), d.as_xml(), repr(d))
 
 
 @entry("tms.from_bytes", "motorola", dict(data=OneOf(Vec(V_TMS), S_TMS), endian=Choice(["big", "big", "little"])), parse=True, ncanon=4)
@@ -1315,15 +1404,19 @@ def _alone(call) -> dict:
 def _check_catalogue_call(c):
     if not isinstance(c, dict) or c.get("e") not in CATALOGUE or not isinstance(c.get("a"), dict):
         raise HarnessError(f"malformed call in case: {c!r}")
-    if c.get("op") not in (None, "scribble_repeat", "reuse") or (c.get("op") == "reuse" and not isinstance(c.get("b"), dict)):
+    if c.get("op") not in (None, "scribble_repeat", "reuse", "same_object") or (c.get("op") == "reuse" and not isinstance(c.get("b"), dict)):
         raise HarnessError(f"malformed compound step in case: {c!r}")
+    if c.get("op") == "same_object" and not (isinstance(c.get("seq"), list) and c["seq"] and all(isinstance(q, dict) and q.get("e") in CATALOGUE and isinstance(q.get("a"), dict) for q in c["seq"])):
+        raise HarnessError(f"malformed same_object step in case: {c!r}")
 
 
 MUT_EXPECTED = "every bit/byte buffer passed to the call equals the deep copy taken before the call"
 COMPOUND = {
     "scribble_repeat": ("scribble_and_repeat_same_result", ["call", "call again after the caller damaged, in place, its argument objects and the buffer(s) the first call returned as its value"]),
     "reuse": ("argument_reuse_same_result", ["call with arguments a", "call with arguments b written in place into the buffers of the first call", "call with a fresh copy of arguments a"]),
+    "same_object": ("same_object_again_same_result", None),
 }
+OBJ_EXPECTED = "the attribute tree (recursive, buffers by content) of every object passed as an argument equals the snapshot taken before the call"
 
 
 def _parts(step):
@@ -1333,6 +1426,8 @@ def _parts(step):
         return [x, x]
     if step.get("op") == "reuse":
         return [x, {"e": step["e"], "a": step["b"]}, x]
+    if step.get("op") == "same_object":
+        return [{"e": q["e"], "a": q["a"]} for q in step["seq"]]
     return [x]
 
 
@@ -1340,19 +1435,28 @@ def _records(step, rec):
     return rec["multi"] if step.get("op") else [rec]
 
 
+def _judge_mutations(i, step, rec):
+    for r, plain in zip(_records(step, rec), _parts(step)):
+        if r.get("mut"):
+            raise Fail("argument_buffers_unchanged", observed={"call_index": i, "entry": plain["e"], "changed": _clip(r["mut"], 600), "op": step.get("op")}, expected=MUT_EXPECTED, klass=plain["e"])
+        if r.get("objmut"):
+            raise Fail("argument_object_unchanged", observed={"call_index": i, "entry": plain["e"], "op": step.get("op"),
+                                                              "changed": [{"object": m["object"], "type": m["type"], "first_difference": _first_diff(m["after"], m["before"], "$", "after", "before")} for m in r["objmut"]]},
+                       expected=OBJ_EXPECTED, klass=plain["e"])
+
+
 def _judge_step_alone(i, step, rec):
     """A step run in a fresh state: argument buffers unchanged; every record of a compound step equals the fresh-state
     observation of the plain call."""
-    for r in _records(step, rec):
-        if r.get("mut"):
-            raise Fail("argument_buffers_unchanged", observed={"call_index": i, "entry": step["e"], "changed": _clip(r["mut"], 600), "op": step.get("op")}, expected=MUT_EXPECTED, klass=step["e"])
+    _judge_mutations(i, step, rec)
     if step.get("op"):
         clause, labels = COMPOUND[step["op"]]
         for k, (r, plain) in enumerate(zip(rec["multi"], _parts(step))):
             B = _alone(plain)
             if r != B:
-                raise Fail(clause, observed={"call_index": i, "entry": step["e"], "step": labels[k], "first_difference": _first_diff(r, B, "$", "observed", "fresh_state")},
-                           expected="the observation the plain call gives in a fresh interpreter state", klass=step["e"])
+                label = labels[k] if labels else f"call {k + 1} of {len(rec['multi'])} ({plain['e']}) with the object argument(s) built once and passed again"
+                raise Fail(clause, observed={"call_index": i, "entry": plain["e"], "step": label, "first_difference": _first_diff(r, B, "$", "observed", "fresh_state")},
+                           expected="the observation the plain call gives in a fresh interpreter state", klass=plain["e"])
 
 
 def oracle_history(case):
@@ -1370,11 +1474,9 @@ def oracle_history(case):
     if calls[0]["e"] not in VOLATILE:
         _B_CACHE.setdefault(_key(calls[0]), A[0])
     _LAST.clear()
-    _LAST.update(raised=sum(1 for c, o in zip(calls, A) for r in _records(c, o) if "raised" in r), n=len(calls))
+    _LAST.update(raised=sum(1 for c, o in zip(calls, A) for r in _records(c, o) if "raised" in r), n=len(calls), first=_records(calls[0], A[0])[0])
     for i, (c, o) in enumerate(zip(calls, A)):
-        for r in _records(c, o):
-            if r.get("mut"):
-                raise Fail("argument_buffers_unchanged", observed={"call_index": i, "entry": c["e"], "changed": _clip(r["mut"], 600), "op": c.get("op")}, expected=MUT_EXPECTED, klass=c["e"])
+        _judge_mutations(i, c, o)
     for i in range(len(calls)):
         B = _alone(calls[i])
         _judge_step_alone(i, calls[i], B)
@@ -1489,6 +1591,58 @@ PROBES = (
 )
 
 
+# entries that take a parsed / constructed OBJECT argument, by the type of the object; `fixed` pins the arguments that select the object path
+OBJECT_ENTRIES = {
+    "kaitai_ipsc": {"burst.from_hytera_ipsc": {"kaitai": True}, "ipsc.from_kaitai": {}},
+    "kaitai_mmdvm": {"burst.from_mmdvm": {}},
+    "burst": {"ipsc.wrap_burst": {}, "burst.serialise": {}},
+    "hdap": {"hrnp.wrap_hdap": {}, "hstrp.wrap_hdap": {}},
+    "gps": {"lp.with_gps": {}},
+    "mbxml_doc": {"mbxml.serialise_doc": {}},
+    "data_header": {"txgen.data_header_burst": {}},
+}
+_REJECTED: dict = {}
+
+
+def _rejected(eid: str, keep: int = 4):
+    """The rejected variants of an entry: candidates derived from the argument specs (one argument just outside its spec) that
+    the library actually answers with an exception in a fresh state (observed, cached); at most ``keep`` per entry, one per
+    (argument, exception type)."""
+    if eid not in _REJECTED:
+        import_library()
+        out, sigs = [], set()
+        for c in reject_candidates(CATALOGUE[eid]):
+            call = {"e": c["e"], "a": c["a"]}
+            try:
+                o = _alone(call)
+            except HarnessError:
+                continue  # the value cannot even be handed to the library by the entry script
+            if "raised" in o and (c["arg"], o["raised"][0]) not in sigs and len(out) < keep:
+                sigs.add((c["arg"], o["raised"][0]))
+                out.append(call)
+        _REJECTED[eid] = out
+    return _REJECTED[eid]
+
+
+def _same_object_steps(x):
+    """same_object steps for a call x of an object-taking entry: X(obj), X(obj); and X(obj), Y(obj), X(obj) for every other entry
+    Y taking the same type of object (Y's remaining arguments: its first canonical variant)."""
+    out = []
+    for tag, ents in OBJECT_ENTRIES.items():
+        if x["e"] not in ents:
+            continue
+        ax = {**x["a"], **ents[x["e"]]}
+        X = {"e": x["e"], "a": ax}
+        out.append({"e": x["e"], "a": ax, "op": "same_object", "seq": [X, X]})
+        for y, fixed in ents.items():
+            if y != x["e"]:
+                ay = dict(canonical_calls(CATALOGUE[y], 1)[-1]["a"])
+                ay.update({n: v for n, v in ax.items() if n in CATALOGUE[y].args and n not in fixed and n in ("data", "bt", "gps")})
+                ay.update(fixed)
+                out.append({"e": x["e"], "a": ax, "op": "same_object", "seq": [X, {"e": y, "a": ay}, X]})
+    return out
+
+
 def _groups():
     g = {}
     for e in sorted(CATALOGUE):
@@ -1503,6 +1657,10 @@ def _self_check():
     for e in DEFAULT_ENTRIES:
         if e not in CATALOGUE:
             raise HarnessError(f"DEFAULT_ENTRIES names unknown entry {e}")
+    for ents in OBJECT_ENTRIES.values():
+        for e, fixed in ents.items():
+            if e not in CATALOGUE or any(n not in CATALOGUE[e].args for n in fixed):
+                raise HarnessError(f"OBJECT_ENTRIES names unknown entry / argument {e} {fixed}")
 
 
 def history_strategy(max_len: int = 12, probes: bool = True):
@@ -1554,8 +1712,19 @@ def history_strategy(max_len: int = 12, probes: bool = True):
         return st.one_of(a.map(lambda x: {"e": e, "a": x, "op": "scribble_repeat"}), st.tuples(a, b).map(lambda t: {"e": e, "a": t[0], "b": t[1], "op": "reuse"}))
 
     any_compound = st.sampled_from(ids).flatmap(compound)
+    obj_ids = sorted(e for ents in OBJECT_ENTRIES.values() for e in ents)
+
+    def rejected_then_valid(e):
+        rej = _rejected(e)
+        first = st.sampled_from(rej) if rej else call_of[e]
+        return st.tuples(st.lists(first, min_size=1, max_size=2), st.lists(group_call[CATALOGUE[e].group], min_size=1, max_size=3)).map(lambda t: t[0] + t[1])
+
+    def same_object_again(e):
+        return st.tuples(call_of[e], st.integers(0, 7), st.lists(any_call, max_size=2)).map(lambda t: [(lambda ss: ss[t[1] % len(ss)])(_same_object_steps(t[0]))] + t[2])
 
     return st.one_of(
+        kind("rejected_then_valid", st.sampled_from(ids).flatmap(rejected_then_valid)),
+        kind("same_object_again", st.sampled_from(obj_ids).flatmap(same_object_again)),
         kind("scribble_and_repeat", st.tuples(st.lists(any_compound, min_size=1, max_size=3), st.lists(any_call, max_size=3)).map(lambda t: t[0] + t[1])),
         kind("random", st.lists(any_call, min_size=1, max_size=max_len)),
         kind("group", st.sampled_from(sorted(groups)).flatmap(lambda g: st.lists(group_call[g], min_size=2, max_size=min(10, max_len)))),
@@ -1592,6 +1761,8 @@ def _record(sub):
             if c.get("op"):
                 t.cls(sub, "steps_" + c["op"])
         t.cls(sub, "calls_total", n)
+        if kind.startswith("rejected_then_valid"):
+            t.cls(sub, "rejected_then_valid_first_call_rejected" if "raised" in _LAST.get("first", {}) else "rejected_then_valid_first_call_accepted")
         t.cls(sub, "calls_raised", _LAST.get("raised", 0))
         for g in sorted({CATALOGUE[c["e"]].group for c in calls}):
             t.cls(sub, "touches_group=" + g)
@@ -1708,7 +1879,35 @@ def drv_pairs(ctx: Ctx, sub: SubCheck):
                 t.case(sub.name, nontrivial=True, cls="pair_same_octets_other_bit_length")
         t.cls(sub.name, "modes_covered")
 
+    def entry_work(eid, t: Tally):
+        """per entry: (rejected variant, every first canonical call of the same group) as exact ordered pairs; same_object steps
+        for the canonical calls and modes of object-taking entries"""
+        readers = [c for e, c in sorted(first.items()) if CATALOGUE[e].group == CATALOGUE[eid].group]
+        rej = _rejected(eid)
+        for R in rej:
+            for r in readers:
+                ctx.run_case(sub.name, oracle_history, {"kind": "rejected_then_valid", "calls": [R, r]}, t)
+                t.case(sub.name, nontrivial=True, cls="pair_rejected_then_valid")
+        t.cls(sub.name, "rejected_variants", len(rej))
+        if not rej:
+            t.cls(sub.name, "entries_without_rejected_variant")
+        if any(eid in ents for ents in OBJECT_ENTRIES.values()):
+            xs = [c for c in calls if c["e"] == eid] + [f[0] for f in mode_families(CATALOGUE[eid])]
+            seen = set()
+            for x in xs:
+                for step in _same_object_steps(x):
+                    if _key(step) not in seen:
+                        seen.add(_key(step))
+                        ctx.run_case(sub.name, oracle_history, {"kind": "same_object_again", "calls": [step]}, t)
+                        t.case(sub.name, nontrivial=True, cls="step_same_object_" + ("XX" if len(step["seq"]) == 2 else "XYX"))
+        if rej:
+            t.sample(sub.name, {"kind": "rejected_then_valid", "calls": [rej[0], readers[0]]})
+
     def work(chunk, t: Tally):
+        if chunk and isinstance(chunk[0], str):
+            for eid in chunk:
+                entry_work(eid, t)
+            return
         if chunk and isinstance(chunk[0], list):
             for fam in chunk:
                 family_work(fam, t)
@@ -1729,7 +1928,8 @@ def drv_pairs(ctx: Ctx, sub: SubCheck):
             t.sample(sub.name, {"kind": "canonical_pair", "calls": [w, rs[len(rs) // 2]]})
 
     families = [f for e in sorted(CATALOGUE) for f in mode_families(CATALOGUE[e])]
-    items = [calls[i::64] for i in range(64)] + [families[i::48] for i in range(48)]
+    eids = sorted(CATALOGUE)
+    items = [calls[i::64] for i in range(64)] + [families[i::48] for i in range(48)] + [eids[i::48] for i in range(48)]
     ctx.shards(work, [c for c in items if c])
     ctx.tally.exhaustive[sub.name] = True
     ctx.tally.extra["canonical_calls"] = len(calls)
